@@ -332,8 +332,9 @@ func scanRefs(v interface{}, acc *[]string) {
 			if k == "$ref" {
 				if s, ok := t[k].(string); ok {
 					*acc = append(*acc, s)
+					continue
 				}
-				continue
+				// a member that merely happens to be called "$ref" (e.g. a schema property): look inside
 			}
 			scanRefs(t[k], acc)
 		}
